@@ -140,7 +140,7 @@ def gen_decl(rng, valid=True):
     import ConfigSpace.hyperparameters as csh
 
     if valid:
-        k = rng.choice(["iu", "il", "fu", "fl", "mix", "cat", "bool", "ord_i", "ord_f", "ord_m", "const", "cs_int", "cs_float", "cs_cat_w", "cs_ord_s", "cs_const"])
+        k = rng.choice(["iu", "il", "fu", "fl", "mix", "cat", "cat_mixed", "cat_mixed", "bool", "ord_i", "ord_f", "ord_m", "const", "cs_int", "cs_float", "cs_cat_w", "cs_ord_s", "cs_const"])
         if k in ("iu", "il"):
             lo = rng.choice([0, 1, 2, -5, 10, 100, 1]) if k == "iu" else rng.choice([1, 2, 8, 16])
             hi = lo + rng.choice([1, 2, 3, 7, 9, 30, 1000, 10 ** 6])
@@ -157,6 +157,8 @@ def gen_decl(rng, valid=True):
             return rng.choice([(1, 4.0), (0.5, 3), (1, 100.0, "log-uniform")])
         if k == "cat":
             return rng.sample(_WORDS, rng.choice([1, 2, 3, 4, 6]))
+        if k == "cat_mixed":  # accepted by add_hyperparameter: any list with a str/bool is a categorical
+            return rng.choice([["sqrt", "log2", 0.5, 3], ["relu", 1, 2.5], ["a", True], ["auto", 0.1, 10], [False, "none", 2.0], ["x", 7]])
         if k == "bool":
             return rng.choice([[True, False], [False, True], [True], ["a", True]])
         if k == "ord_i":
@@ -164,7 +166,7 @@ def gen_decl(rng, valid=True):
         if k == "ord_f":
             return rng.sample([0.1, 0.25, 0.5, 1.5, 2.5, 10.0], rng.choice([1, 2, 3, 4]))
         if k == "ord_m":
-            return rng.choice([[1, 2.5], [0.5, 2, 3]])
+            return rng.choice([[1, 2.5], [0.5, 2, 3], [1, 2.5, 4]])
         if k == "const":
             return rng.choice([5, 2.5, "fixed", True, 0])
         nm = "__NAME__"
@@ -228,9 +230,14 @@ def describe(value):
 # --------------------------------------------------------------------------- L2/L3: structure
 
 
-def structure_case(ck, d, rng):
+def structure_case(ck, d, seed):
+    """derived from `seed` only, so that a stored case replays exactly"""
+    import random
+
     from deephyper.hpo import HpProblem
     from deephyper.hpo._problem import convert_to_skopt_space
+
+    rng = random.Random(seed)
 
     n = rng.choice([1, 2, 3, 4, 6])
     names = rng.sample(_NAMES, n)
@@ -252,7 +259,7 @@ def structure_case(ck, d, rng):
         adds.append({"value": shorthand_wire(value), "name": name_arg, "py": describe(value)})
         ck.count("add:" + (shorthand_wire(value)["k"]) + ":" + steps[-1])
     surrogate = rng.choice(["RF", "ET", "GP", None, "GBRT", "DUMMY", "HGBRT", "MF"])
-    case = {"kind": "structure", "adds": [{"name": a["name"], "py": a["py"]} for a in adds], "surrogate": surrogate}
+    case = {"kind": "structure", "seed": seed, "adds": [{"name": a["name"], "py": a["py"]} for a in adds], "surrogate": surrogate}
     ck.case(case, nontrivial=steps.count("ok") >= 1)
     rep = d.ask({"op": "adds", "adds": [{"value": a["value"], "name": a["name"]} for a in adds], "R": r_table(raw_values)})
     real_names = list(problem.hyperparameter_names)
@@ -265,9 +272,109 @@ def structure_case(ck, d, rng):
         return
     if not real_hps:
         return
+    # conditions / forbidden clauses between arbitrary (not alphabetically ordered) names: ConfigSpace then lists
+    # parents before children; the converted space must follow problem.hyperparameter_names
+    ncond = nforb = 0
+    if len(real_hps) >= 2 and rng.random() < 0.5:
+        ncond, nforb = add_conditions(problem, rng)
+        case["conditions"], case["forbidden"] = ncond, nforb
+        ck.count("structure:conditions=%d,forbidden=%d" % (ncond, nforb))
+        real_hps = [cshp_wire(h) for h in problem.space.values()]
+        if [h["name"] for h in real_hps] != list(problem.hyperparameter_names):
+            raise common.HarnessError("ConfigSpace keys() and values() disagree")
+        if [h["name"] for h in real_hps] != sorted(h["name"] for h in real_hps):
+            ck.count("structure:non-alphabetical-order")
     conv = Out(lambda: convert_to_skopt_space(problem.space, surrogate_model=surrogate))
-    rep2 = d.ask({"op": "convert", "hps": real_hps, "ncond": 0, "nforb": 0, "surrogate": surrogate or ""})
-    check_conversion(ck, case, problem, conv, rep2)
+    rep2 = d.ask({"op": "convert", "hps": real_hps, "ncond": ncond, "nforb": nforb, "surrogate": surrogate or ""})
+    sp = check_conversion(ck, case, problem, conv, rep2)
+    if sp is not None:
+        # a few sampled points, column i against the declaration of problem.hyperparameter_names[i]
+        if sp.config_space is not None:
+            sp.config_space.seed(seed)
+        rows = Out(lambda: sp.rvs(12, random_state=np.random.RandomState(seed)))
+        path = "Space.rvs:configspace" if sp.config_space is not None else "Space.rvs:flat"
+        if rows.exc is not None:
+            ck.fail(f"C10|raises:{err_kind(rows.exc)}|{path}|declared-problem", "Space.rvs raises on an accepted problem", case, repr(rows.exc))
+        else:
+            check_points_by_name(ck, case, problem, rows.val, path)
+
+
+def legal_value(hp, v, loose):
+    """is v (value AND Python type) what the declaration of hp allows?"""
+    import ConfigSpace.hyperparameters as csh
+
+    t = tag(v)
+    if isinstance(hp, csh.UniformIntegerHyperparameter):
+        return t["t"] == "i" and hp.lower <= t["v"] <= hp.upper
+    if isinstance(hp, csh.UniformFloatHyperparameter):
+        return t["t"] == "f" and hp.lower <= float(unrat(t["v"])) <= hp.upper
+    if isinstance(hp, csh.CategoricalHyperparameter):
+        return any(tag(c) == t for c in hp.choices)
+    if isinstance(hp, csh.OrdinalHyperparameter):
+        if loose and t["t"] in ("i", "f"):  # ConfigSpace's own array coercion of a numeric sequence
+            return any(tag(c)["t"] in ("i", "f") and c == v for c in hp.sequence)
+        return any(tag(c) == t for c in hp.sequence)
+    if isinstance(hp, csh.Constant):
+        return tag(hp.value) == t
+    return True
+
+
+def check_points_by_name(ck, case, problem, rows, path):
+    names = list(problem.hyperparameter_names)
+    for row in rows:
+        if len(row) != len(names):
+            ck.fail(f"C10|support-by-name|{path}|row-length", "a point does not have one value per hyperparameter", case, {"row": repr(row)})
+            return
+        for nm, v in zip(names, row):
+            hp = problem.space[nm]
+            if not legal_value(hp, v, loose=path != "Space.rvs:flat"):
+                ck.fail(f"C10|support-by-name|{path}|{cshp_wire(hp)['k']}",
+                        "a sampled value is not allowed by the declaration of the hyperparameter of that name (value and Python type)",
+                        case, {"name": nm, "value": repr(v), "type": type(v).__name__, "declaration": repr(hp)[:200], "row": repr(row)[:300]})
+                return
+
+
+def add_conditions(problem, rng):
+    """1-2 EqualsConditions (child, parent with a finite value set, legal parent value) and possibly a forbidden clause;
+    whatever ConfigSpace refuses (cycles, forbidden default, ...) is skipped"""
+    import ConfigSpace as cs
+    import ConfigSpace.hyperparameters as csh
+
+    def values_of(hp):
+        if isinstance(hp, csh.CategoricalHyperparameter):
+            return list(hp.choices)
+        if isinstance(hp, csh.OrdinalHyperparameter):
+            return list(hp.sequence)
+        if isinstance(hp, csh.UniformIntegerHyperparameter) and hp.upper - hp.lower <= 1000:
+            return [hp.lower, hp.upper, (hp.lower + hp.upper) // 2]
+        return []
+
+    hps = list(problem.space.values())
+    ncond = nforb = 0
+    children = set()
+    for _ in range(rng.choice([1, 1, 2])):
+        parents = [h for h in hps if len(values_of(h)) >= 2]
+        if not parents:
+            break
+        parent = rng.choice(parents)
+        cands = [h for h in hps if h.name != parent.name and h.name not in children]
+        if not cands:
+            break
+        child = rng.choice(cands)
+        o = Out(lambda: problem.add_condition(cs.EqualsCondition(child, parent, rng.choice(values_of(parent)))))
+        if o.exc is None:
+            ncond += 1
+            children.add(child.name)
+    if rng.random() < 0.4:
+        cands = [h for h in hps if len(values_of(h)) >= 2 and h.name not in children]
+        if cands:
+            h = rng.choice(cands)
+            vals = [v for v in values_of(h) if v != h.default_value]
+            if vals:
+                o = Out(lambda: problem.add_forbidden_clause(cs.ForbiddenEqualsClause(h, rng.choice(vals))))
+                if o.exc is None:
+                    nforb += 1
+    return len(problem.space.conditions), len(problem.space.forbidden_clauses)
 
 
 def check_conversion(ck, case, problem, conv, rep):
@@ -367,6 +474,9 @@ def sampler_case(ck, d, rng):
     s = gen_dim(rng, base)
     if s["k"] == "cat" and rng.random() < 0.4:
         s["tr"] = rng.choice(["label", "onehot", "normalize"])
+    if s["k"] == "cat" and s["tr"] != "identity" and rng.random() < 0.25:
+        # mixed-type category lists are accepted declarations: the sampler must hand out the declared objects
+        s["cats"] = rng.choice([["sqrt", "log2", 0.5, 3], ["relu", 1, 2.5], ["a", True], ["auto", 0.1, 10], [False, "none", 2.0]])
     prior = None
     if s["k"] == "cat" and len(s["cats"]) >= 2 and rng.random() < 0.4:
         w = [rng.randint(1, 5) for _ in s["cats"]]
@@ -484,6 +594,11 @@ def ks_threshold(n):
     return math.sqrt(-math.log(P_TAIL / 2) / (2 * n))
 
 
+def end_fraction(n):
+    """q with (1-q)^n = 1e-12: n uniform samples all miss the first (last) fraction q of the range with that probability"""
+    return 1.0 - math.exp(math.log(1e-12) / n)
+
+
 def law_int_log_flat(lo, hi):
     span = math.log(hi) - math.log(lo)
     return [(math.log(min(k + 0.5, hi)) - math.log(max(k - 0.5, lo))) / span for k in range(lo, hi + 1)]
@@ -502,6 +617,8 @@ def judge_column(ck, path, hp_desc, col, case):
     n = len(col)
     kind = hp_desc["kind"]
     sig = hp_desc["sig"]
+    if n == 0:
+        return
 
     def fail(clause, what, detail):
         ck.fail(f"C10|{clause}|{path}|{sig}", f"{what} ({sig}, {path})", case, detail)
@@ -509,12 +626,20 @@ def judge_column(ck, path, hp_desc, col, case):
     if kind in ("cat",):
         choices = hp_desc["choices"]
         probs = hp_desc["probs"]
-        keys = [json.dumps(tag(c), sort_keys=True) for c in choices]
+        def key(v):
+            t = tag(v)
+            if hp_desc.get("loose_numeric") and t["t"] in ("i", "f"):
+                # ConfigSpace keeps a numeric ordinal sequence in one NumPy array: 1 comes back as 1.0 on its paths
+                return "num:" + str(unrat(t["v"]) if t["t"] == "f" else Fraction(t["v"]))
+            return json.dumps(t, sort_keys=True)
+
+        keys = [key(c) for c in choices]
         cnt = {k: 0 for k in keys}
         for v in col:
-            k = json.dumps(tag(v), sort_keys=True)
+            k = key(v)
             if k not in cnt:
-                return fail("support", "a sampled value is not a declared choice", {"value": repr(v)})
+                return fail("support", "a sampled value is not a declared choice (value and Python type)",
+                            {"value": repr(v), "type": type(v).__name__, "declared": repr(choices)})
             cnt[k] += 1
         missing = [c for c, k in zip(choices, keys) if cnt[k] == 0 and probs[keys.index(k)] * n > 50]
         if missing:
@@ -556,7 +681,8 @@ def judge_column(ck, path, hp_desc, col, case):
         dstat = float(np.max(np.abs(emp - cdf)))
         if dstat > ks_threshold(n) + slack:
             return fail("law-ks", "integer sample is not consistent with the declared prior", {"D": dstat, "threshold": ks_threshold(n) + slack})
-        if xs[0] > lo + 0.02 * (hi - lo) and not hp_desc["log"] or xs[-1] < hi - 0.02 * (hi - lo) and not hp_desc["log"]:
+        q = end_fraction(n)
+        if xs[0] > lo + q * (hi - lo) and not hp_desc["log"] or xs[-1] < hi - q * (hi - lo) and not hp_desc["log"]:
             return fail("coverage", "the ends of the integer range are not reached", {"min": xs[0], "max": xs[-1]})
         return
     # real
@@ -570,7 +696,7 @@ def judge_column(ck, path, hp_desc, col, case):
     dstat = float(max(np.max(np.abs(emp_hi - t)), np.max(np.abs(emp_lo - t))))
     if dstat > ks_threshold(n):
         return fail("law-ks", "real sample is not consistent with the declared prior", {"D": dstat, "threshold": ks_threshold(n)})
-    if t[0] > 0.01 or t[-1] < 0.99:
+    if t[0] > end_fraction(n) or t[-1] < 1 - end_fraction(n):
         return fail("coverage", "the ends of the real range are not reached", {"min": float(xs[0]), "max": float(xs[-1])})
 
 
@@ -607,6 +733,11 @@ def law_problem(rng, weighted=True):
     of = [0.1, 0.5, 2.5]
     add("o_float", of, {"kind": "cat", "choices": of, "probs": [1 / 3] * 3, "sig": "ordinal[float]"})
     add("k_const", 7, {"kind": "cat", "choices": [7], "probs": [1.0], "sig": "constant"})
+    mx = rng.choice([["sqrt", "log2", 0.5, 3], ["relu", 1, 2.5], ["auto", 0.1, 10]])
+    add("c_mixed", mx, {"kind": "cat", "choices": mx, "probs": [1.0 / len(mx)] * len(mx), "sig": "cat[mixed str+float+int]"})
+    add("c_strbool", ["a", True], {"kind": "cat", "choices": ["a", True], "probs": [0.5, 0.5], "sig": "cat[mixed str+bool]"})
+    om = rng.choice([[1, 2.5, 4], [0.5, 2, 3]])
+    add("o_mixed", om, {"kind": "cat", "choices": om, "probs": [1.0 / len(om)] * len(om), "sig": "ordinal[mixed int+float]", "cs_loose": True})
     if weighted:
         wch = ["p", "q", "r"]
         w = rng.choice([[0.7, 0.2, 0.1], [0.1, 0.1, 0.8]])
@@ -615,33 +746,77 @@ def law_problem(rng, weighted=True):
     return p, descs
 
 
+CS_PATHS = ("Space.rvs:configspace", "RandomSearch.ask", "Optimizer.ask:RF:configspace")
+
+
+def judge_rows(ck, path, problem, descs, rows, base_case, child=None):
+    """rows: points (lists in the order of problem.hyperparameter_names - what CBO._to_dict assumes - or dicts by name).
+    Column i is judged against the declaration of the hyperparameter OF THAT NAME (value and Python type)."""
+    names = list(problem.hyperparameter_names)
+    on_cs = any(path.startswith(p) for p in CS_PATHS)
+    cols = {}
+    for i, nm in enumerate(names):
+        cols[nm] = [r[nm] if isinstance(r, dict) else r[i] for r in rows]
+    for nm in names:
+        if nm not in descs:
+            continue
+        desc = dict(descs[nm])
+        desc["law"] = (law_int_log_configspace if on_cs else law_int_log_flat) if desc["kind"] == "int" and desc.get("log") else None
+        desc["loose_numeric"] = bool(on_cs and desc.get("cs_loose"))
+        judge_column(ck, path, desc, cols[nm], {**base_case, "path": path, "hyperparameter": nm})
+        ck.count(f"law:{path}:{desc['sig']}")
+    if child is not None:
+        # the conditional child: active (uniform on its range) when the parent has the value, else ITS lower bound
+        cname, pname, pval, lo, hi = child
+        act = [c for c, b in zip(cols[cname], cols[pname]) if tag(b) == tag(pval)]
+        inact = [c for c, b in zip(cols[cname], cols[pname]) if tag(b) != tag(pval)]
+        if any(tag(v) != tag(lo) for v in inact):
+            ck.fail(f"C10|inactive-value|{path}|int", "an inactive hyperparameter is not given its own lower bound", {**base_case, "path": path},
+                    {"values": sorted({repr(v) for v in inact})[:5], "lower": lo})
+        if not act and len(rows) >= 200:
+            ck.fail(f"C10|coverage|{path}|int/uniform,conditional", "the conditional hyperparameter is never active", {**base_case, "path": path},
+                    {"rows": len(rows)})
+        judge_column(ck, path, {"kind": "int", "lo": lo, "hi": hi, "log": False, "law": None, "sig": "int/uniform,conditional"},
+                     act, {**base_case, "path": path, "hyperparameter": cname})
+    ck.case({**base_case, "path": path})
+
+
+def conditional_problem(seed):
+    """the law problem plus a conditional child whose name sorts BEFORE its parent (ConfigSpace lists parents first)
+    and whose lower bound differs from every other one"""
+    import random
+
+    import ConfigSpace as cs
+
+    problem, descs = law_problem(random.Random(seed), weighted=True)
+    child = problem.add_hyperparameter((2, 5), "a_child")
+    problem.add_condition(cs.EqualsCondition(child, problem.space["c_bool"], True))
+    return problem, descs, ("a_child", "c_bool", True, 2, 5)
+
+
+def check_dimension_order(ck, problem, sp, base_case):
+    if sp.dimension_names != list(problem.hyperparameter_names):
+        ck.fail("C10|convert-names-order|convert_to_skopt_space|names", "names / order of the converted space differ from the problem's",
+                base_case, {"space": sp.dimension_names, "problem": list(problem.hyperparameter_names)})
+        return False
+    return True
+
+
 def law_case(ck, d, seed, n):
     """everything (problem, generators) is derived from `seed`: a stored case replays exactly"""
     import random
 
-    import ConfigSpace as cs
     from deephyper.hpo._problem import convert_to_skopt_space
     from deephyper.skopt import Optimizer
 
     problem, descs = law_problem(random.Random(seed))
-    names = list(problem.hyperparameter_names)
     base_case = {"kind": "law", "seed": seed, "n": n, "descs": {k: {kk: vv for kk, vv in v.items() if kk != "law"} for k, v in descs.items()}}
-
-    def judge(path, rows, int_log_law):
-        for j, name in enumerate(names):
-            desc = dict(descs[name])
-            desc["law"] = None
-            if desc["kind"] == "int" and desc["log"]:
-                desc["law"] = int_log_law
-            col = [r[j] for r in rows]
-            judge_column(ck, path, desc, col, {**base_case, "path": path, "hyperparameter": name})
-            ck.count(f"law:{path}:{desc['sig']}")
-        ck.case({**base_case, "path": path})
 
     # (1) flat Space.rvs
     sp = convert_to_skopt_space(problem.space, surrogate_model="RF")
+    check_dimension_order(ck, problem, sp, base_case)
     rows = sp.rvs(n, random_state=np.random.RandomState(seed))
-    judge("Space.rvs:flat", rows, law_int_log_flat)
+    judge_rows(ck, "Space.rvs:flat", problem, descs, rows, base_case)
     # (2) Optimizer.ask in the initial phase with the GP surrogate (every dimension normalized)
     sp = convert_to_skopt_space(problem.space, surrogate_model="GP")
     out = Out(lambda: Optimizer(sp, base_estimator="GP", n_initial_points=10 ** 9, random_state=seed,
@@ -654,67 +829,109 @@ def law_case(ck, d, seed, n):
         ck.count("law:Optimizer.ask:GP transforms=" + ",".join(sorted(tr)))
         rows = opt.ask(n_points=n)
         if len(rows) >= n // 2:
-            judge("Optimizer.ask:GP", rows, law_int_log_flat)
-    # (3) Space.rvs through ConfigSpace (a forbidden clause that never fires keeps every law intact)
-    problem2, descs2 = law_problem(random.Random(seed), weighted=True)
-    names2 = list(problem2.hyperparameter_names)
-    child = problem2.add_hyperparameter((0, 3), "z_child")
-    problem2.add_condition(cs.EqualsCondition(child, problem2.space["c_bool"], True))
+            judge_rows(ck, "Optimizer.ask:GP", problem, descs, rows, base_case)
+    # (3) Space.rvs through ConfigSpace
+    problem2, descs2, child = conditional_problem(seed)
     sp2 = convert_to_skopt_space(problem2.space, surrogate_model="RF")
     if sp2.config_space is None:
         ck.fail("C10|configspace-path|convert_to_skopt_space|conditions", "a space with a condition is not sampled through ConfigSpace", base_case)
     else:
+        check_dimension_order(ck, problem2, sp2, base_case)
         sp2.config_space.seed(seed)
         rows2 = sp2.rvs(n, random_state=np.random.RandomState(seed))
-        names_all = sp2.dimension_names
-        cols = {nm: [r[names_all.index(nm)] for r in rows2] for nm in names_all}
-        for nm in names2:
-            desc = dict(descs2[nm])
-            desc["law"] = law_int_log_configspace if desc["kind"] == "int" and desc["log"] else None
-            judge_column(ck, "Space.rvs:configspace", desc, cols[nm], {**base_case, "path": "Space.rvs:configspace", "hyperparameter": nm})
-            ck.count(f"law:Space.rvs:configspace:{desc['sig']}")
-        # the conditional child: active (uniform on 0..3) when c_bool is True, else the lower bound
-        act = [c for c, b in zip(cols["z_child"], cols["c_bool"]) if b]
-        inact = [c for c, b in zip(cols["z_child"], cols["c_bool"]) if not b]
-        if any(v != 0 for v in inact):
-            ck.fail("C10|inactive-value|Space.rvs:configspace|int", "an inactive hyperparameter is not given its lower bound", base_case, {"values": sorted(set(map(int, inact)))})
-        judge_column(ck, "Space.rvs:configspace", {"kind": "int", "lo": 0, "hi": 3, "log": False, "law": None, "sig": "int/uniform,conditional"},
-                     act, {**base_case, "path": "Space.rvs:configspace", "hyperparameter": "z_child"})
-        # L2: the point built from a configuration (model pointOfConf), on a few sampled configurations
+        judge_rows(ck, "Space.rvs:configspace", problem2, descs2, rows2, base_case, child=child)
+        # L2: the same ConfigSpace stream twice: the configurations it samples, and the points Space.rvs builds from them
+        sp2.config_space.seed(seed + 1)
         confs = sp2.config_space.sample_configuration(8)
+        sp2.config_space.seed(seed + 1)
+        real_rows = sp2.rvs(8, random_state=np.random.RandomState(seed))
         dims_w = [skdim_wire(dm) for dm in sp2.dimensions]
-        for conf in confs:
+        for conf, row in zip(confs, real_rows):
             cd = dict(conf)
-            point = [cd[nm] if nm in cd else sp2.dimensions[i].bounds[0] for i, nm in enumerate(names_all)]
             rep = d.ask({"op": "point", "dims": dims_w, "conf": [[k, tag(v)] for k, v in cd.items()]})
-            if rep["res"].get("row") != [tag(v) for v in point]:
-                ck.mismatch({"kind": "point", "conf": {k: repr(v) for k, v in cd.items()}}, {"impl": [tag(v) for v in point], "model": rep["res"]})
-            ck.count("point:" + ("inactive-filled" if len(cd) < len(names_all) else "all-active"))
+            if rep["res"].get("row") != [tag(v) for v in row]:
+                ck.mismatch({"kind": "point", "seed": seed, "conf": {k: repr(v) for k, v in cd.items()}},
+                            {"what": "Space.rvs (ConfigSpace path) vs pointOfConf of the configuration ConfigSpace sampled",
+                             "impl": [tag(v) for v in row], "model": rep["res"]})
+            ck.count("point:" + ("inactive-filled" if len(cd) < len(dims_w) else "all-active"))
     # (4) RandomSearch.ask
     tmp = tempfile.mkdtemp(prefix="c10_")
     try:
         from deephyper.hpo import RandomSearch
 
-        def run(job):
-            return 0.0
-
-        out = Out(lambda: RandomSearch(problem2, run, random_state=seed, log_dir=tmp))
+        out = Out(lambda: RandomSearch(problem2, _zero, random_state=seed, log_dir=tmp))
         if out.exc is not None:
             ck.count("law:RandomSearch-unavailable:" + type(out.exc).__name__)
         else:
             confs = out.val.ask(n)
             names_all = list(problem2.hyperparameter_names)
-            if any(list(c.keys()) != names_all and sorted(c.keys()) != sorted(names_all) for c in confs[:50]):
+            if any(sorted(c.keys()) != sorted(names_all) for c in confs[:50]):
                 ck.fail("C10|names|RandomSearch.ask|keys", "a configuration does not have exactly the problem's hyperparameters", base_case, {"keys": list(confs[0].keys())})
-            for nm in names2:
-                desc = dict(descs2[nm])
-                desc["law"] = law_int_log_configspace if desc["kind"] == "int" and desc["log"] else None
-                judge_column(ck, "RandomSearch.ask", desc, [c[nm] for c in confs], {**base_case, "path": "RandomSearch.ask", "hyperparameter": nm})
-                ck.count(f"law:RandomSearch.ask:{desc['sig']}")
-            inact = [c["z_child"] for c in confs if not c["c_bool"]]
-            if any(v != 0 for v in inact):
-                ck.fail("C10|inactive-value|RandomSearch.ask|int", "an inactive hyperparameter is not given its lower bound", base_case)
-            ck.case({**base_case, "path": "RandomSearch.ask"})
+            else:
+                judge_rows(ck, "RandomSearch.ask", problem2, descs2, confs, base_case, child=child)
+    finally:
+        shutil.rmtree(tmp, ignore_errors=True)
+
+
+def _zero(job):
+    return 0.0
+
+
+def small_calls_case(ck, seed, calls):
+    """the laws over MANY SMALL CALLS on one object sharing one random state (what a search does), aggregated,
+    and successive batches must differ; flat and ConfigSpace (conditional) problems"""
+    import random
+
+    from deephyper.hpo._problem import convert_to_skopt_space
+    from deephyper.skopt import Optimizer
+
+    base_case = {"kind": "small-calls", "seed": seed, "calls": calls}
+    rng = random.Random(seed)
+
+    def aggregate(path, problem, descs, batches, child=None):
+        same = sum(1 for a, b in zip(batches, batches[1:]) if repr(a) == repr(b))
+        ck.count("small-calls:" + path)
+        if same:
+            ck.fail(f"C10|batches-identical|{path}|shared-random-state",
+                    f"successive calls sharing one random state return identical batches ({same} of {len(batches) - 1})",
+                    {**base_case, "path": path}, {"first": repr(batches[0])[:300]})
+            if same > len(batches) // 2:
+                return  # the aggregated frequencies only repeat this finding
+        rows = [r for b in batches for r in b]
+        judge_rows(ck, path + ":small-calls", problem, descs, rows, base_case, child=child)
+
+    flat, fdescs = law_problem(random.Random(seed))
+    cond, cdescs, child = conditional_problem(seed)
+    # Space.rvs, one shared RandomState
+    for path, problem, descs, ch in (("Space.rvs:flat", flat, fdescs, None), ("Space.rvs:configspace", cond, cdescs, child)):
+        sp = convert_to_skopt_space(problem.space, surrogate_model=rng.choice(["RF", "GP"]))
+        if sp.config_space is not None:
+            sp.config_space.seed(seed)
+        rs = np.random.RandomState(seed)
+        aggregate(path, problem, descs, [sp.rvs(5, random_state=rs) for _ in range(calls)], ch)
+    # Optimizer.ask in the initial phase: ask() and ask(n) repeated on one optimizer
+    for path, problem, descs, ch, sm in (("Optimizer.ask:RF", flat, fdescs, None, "RF"), ("Optimizer.ask:GP", flat, fdescs, None, "GP"),
+                                         ("Optimizer.ask:RF:configspace", cond, cdescs, child, "RF")):
+        sp = convert_to_skopt_space(problem.space, surrogate_model=sm)
+        out = Out(lambda: Optimizer(sp, base_estimator=sm, n_initial_points=10 ** 9, random_state=seed,
+                                    acq_optimizer_kwargs={"n_points": 16, "filter_duplicated": False}))
+        if out.exc is not None:
+            ck.count("small-calls:Optimizer-unavailable:" + type(out.exc).__name__)
+            continue
+        opt = out.val
+        batches = []
+        for k in range(calls):
+            batches.append([opt.ask()] if k % 3 else opt.ask(n_points=4))
+        aggregate(path, problem, descs, batches, ch)
+    # RandomSearch.ask
+    tmp = tempfile.mkdtemp(prefix="c10_")
+    try:
+        from deephyper.hpo import RandomSearch
+
+        out = Out(lambda: RandomSearch(cond, _zero, random_state=seed, log_dir=tmp))
+        if out.exc is None:
+            batches = [out.val.ask(1 if k % 3 else 4) for k in range(calls)]
+            aggregate("RandomSearch.ask", cond, cdescs, batches, child)
     finally:
         shutil.rmtree(tmp, ignore_errors=True)
 
@@ -815,6 +1032,31 @@ def run_corpus_case(ck, d, case):
             desc = {"kind": "int", "lo": s["lo"], "hi": s["hi"], "log": False, "law": None, "sig": "int/uniform/normalize"}
         judge_column(ck, "Space.rvs:flat", desc, [r[0] for r in rows], case)
         ck.case(case)
+    elif case.get("kind") == "declared-problem":
+        # an explicit problem: order of the converted space, every sampled point by name (value and type), over many
+        # small calls sharing one random state (successive batches differ)
+        import ConfigSpace as cs
+        from deephyper.hpo import HpProblem
+        from deephyper.hpo._problem import convert_to_skopt_space
+
+        problem = HpProblem()
+        for h in case["hps"]:
+            v = h["value"]
+            problem.add_hyperparameter(tuple(v["tuple"]) if isinstance(v, dict) else v, h["name"])
+        for c in case.get("conditions", []):
+            problem.add_condition(cs.EqualsCondition(problem.space[c["child"]], problem.space[c["parent"]], c["value"]))
+        ck.case(case)
+        for sm in ("RF", "GP"):
+            sp = convert_to_skopt_space(problem.space, surrogate_model=sm)
+            path = "Space.rvs:configspace" if sp.config_space is not None else "Space.rvs:flat"
+            check_dimension_order(ck, problem, sp, case)
+            if sp.config_space is not None:
+                sp.config_space.seed(case["seed"])
+            rs = np.random.RandomState(case["seed"])
+            batches = [sp.rvs(5, random_state=rs) for _ in range(case.get("calls", 40))]
+            if any(repr(a) == repr(b) for a, b in zip(batches, batches[1:])):
+                ck.fail(f"C10|batches-identical|{path}|shared-random-state", "successive calls sharing one random state return identical batches", case)
+            check_points_by_name(ck, case, problem, [r for b in batches for r in b], path)
     elif case.get("kind") == "weights":
         import ConfigSpace as cs
         import ConfigSpace.hyperparameters as csh
@@ -853,7 +1095,7 @@ def run(ck):
             ck.count("corpus")
             run_corpus_case(ck, d, case)
         for _ in range(ck.pick(300, 3000)):
-            structure_case(ck, d, rng)
+            structure_case(ck, d, rng.randint(0, 2 ** 30))
         for _ in range(ck.pick(150, 1200)):
             malformed_case(ck, d, rng)
         for _ in range(ck.pick(500, 6000)):
@@ -862,14 +1104,20 @@ def run(ck):
             rvs_history_case(ck, rng.randint(0, 2 ** 20))
         for _ in range(ck.pick(2, 10)):
             law_case(ck, d, rng.randint(0, 2 ** 20), n)
+        for _ in range(ck.pick(1, 3)):
+            small_calls_case(ck, rng.randint(0, 2 ** 20), ck.pick(400, 800))
 
 
 def replay(ck, case):
     with ck.driver() as d:
-        if case.get("kind") in ("normalized-law", "weights"):
+        if case.get("kind") in ("normalized-law", "weights", "declared-problem"):
             run_corpus_case(ck, d, case)
         elif case.get("kind") == "rvs-history":
             rvs_history_case(ck, case["seed"])
+        elif case.get("kind") == "small-calls":
+            small_calls_case(ck, case["seed"], case.get("calls", 400))
+        elif case.get("kind") == "structure" and "seed" in case:
+            structure_case(ck, d, case["seed"])
         elif case.get("kind") == "law" or "hyperparameter" in case:
             law_case(ck, d, case.get("seed", 0), case.get("n", 20000))
         elif "hp" in case:
